@@ -421,9 +421,9 @@ def main(argv=None):
               % (prop, ', '.join(r['name'] for r in vacuous_units)))
         status = 3
     expected = pinfo.get('min_obligations', 1)
-    if status == 0 and n_ob < expected and not args.only and not violations:
-        # vacuity guard (a changed tree that makes units leave the subset also lowers the count: then the named
-        # violations below are the verdict, not this)
+    if status == 0 and n_ob < expected and not args.only and not violations and not undecided_units:
+        # vacuity guard for SILENT drops; a changed tree that makes units leave the subset also lowers the count: then the
+        # named violations / the UNDECIDED lines are the verdict, not this
         print("CHECKER-ERROR property=%s only %d obligations generated, expected at least %d" % (prop, n_ob, expected))
         status = 3
     if violations:
